@@ -8,9 +8,9 @@ from .. import gens
 from ..common import arr2bits, bits2arr, driver
 
 THEOREMS = ['geom_series_solve', 'fallback_sum', 'periodic_eq_repetition_sum',
-            'periodic_source_shape', 'geomSum_toMatrix', 'accumulate_replicate',
+            'geomSum_toMatrix', 'accumulate_replicate',
             'periodicFallback_eq', 'periodicS_eq_geomSum']
-PINS = ['pinConcatenatePeriodic']
+PINS = ['pinConcatenatePeriodic', 'C04_periodic_source_shape']
 GEN_SITES = ['const:numeric.calculate_control_matrix_periodic',
              'einsum:numeric_calculate_control_matrix_from_atomic_0']
 COMPONENTS = ['cm_periodic']
